@@ -8,13 +8,17 @@ cd "$VERIF_ROOT/mc" || exit 2
 case "$1" in
   mccheck)
     ov=$(go run ./cmd/mkoverlay plain "$VERIF_ROOT/.build/ov-plain") || exit 2
-    if ! go build -overlay "$ov" -o "$VERIF_ROOT/.build/mccheck" ./cmd/mccheck 2>"$VERIF_ROOT/.build/mccheck.err"; then
+    if ! go build -overlay "$ov" -o "$VERIF_ROOT/.build/mccheck${VERIF_BIN_SUFFIX:-}" ./cmd/mccheck 2>"$VERIF_ROOT/.build/mccheck.err"; then
       echo "note: build with private-state dump files failed, retrying with -tags nodump (no state merging for statecache/wmpt/logging checks)" >&2
       cat "$VERIF_ROOT/.build/mccheck.err" >&2
-      go build -tags nodump -o "$VERIF_ROOT/.build/mccheck" ./cmd/mccheck
+      go build -tags nodump -o "$VERIF_ROOT/.build/mccheck${VERIF_BIN_SUFFIX:-}" ./cmd/mccheck
     fi ;;
   mcsched)
     ov=$(go run ./cmd/mkoverlay sched "$VERIF_ROOT/.build/ov-sched") || exit 2
-    go build -modfile=go.sched.mod -overlay "$ov" -o "$VERIF_ROOT/.build/mcsched" ./cmd/mcsched ;;
+    go build -modfile=go.sched.mod -overlay "$ov" -o "$VERIF_ROOT/.build/mcsched${VERIF_BIN_SUFFIX:-}" ./cmd/mcsched ;;
+  mcsched.buf4)
+    # the same binary with logging.BufferSize = 4 (one constant changed through the overlay)
+    ov=$(VERIF_BUF4=1 go run ./cmd/mkoverlay sched "$VERIF_ROOT/.build/ov-buf4") || exit 2
+    go build -modfile=go.sched.mod -overlay "$ov" -o "$VERIF_ROOT/.build/mcsched${VERIF_BIN_SUFFIX:-}.buf4" ./cmd/mcsched ;;
   *) echo "unknown binary $1" >&2; exit 2 ;;
 esac
